@@ -80,8 +80,10 @@ def lin_exact(call):
 def describe(p):
     """Public description of a prior object."""
     from taurex.core.priors import PriorMode
+    import re
+    nums = tuple(float(x) for x in re.findall(r'[-+]?(?:\d+\.?\d*(?:[eE][-+]?\d+)?|inf|nan)', p.params()))
     return dict(cls=p.__class__.__name__, mode='log' if p.priorMode is PriorMode.LOG else 'linear',
-                params=p.params(), boundaries=tuple(float(x) for x in p.boundaries()))
+                params=nums, boundaries=tuple(float(x) for x in p.boundaries()))
 
 
 def text_forms(name, kw, rng):
@@ -120,8 +122,14 @@ def check_vector(ctx, v, rng):
     if not lin_exact(call):
         raise Machinery('log10(10**e) not exact for %r' % (call,))
     kw = kwargs_of(call)
-    obj = klass(call['cls'])(**kw)
-    d = describe(obj)
+    try:
+        obj = klass(call['cls'])(**kw)
+        d = describe(obj)
+        obj.sample(0.5)
+    except Exception as e:
+        ctx.verdict('declared_space', False, cls=cls, vector=dict(call=call, p=p),
+                    detail='%s(**%r) raised %r' % (call['cls'], kw, e))
+        return
     a, b = float(frac(p['a'])), float(frac(p['b']))
     vec = dict(call=call, p=p)
     # --- declared space and back-transform
@@ -229,13 +237,14 @@ def random_events(rng, n):
             j2 = UD - j1 if rng.random() < 0.3 else rng.randint(lo_j, hi_j)
             if j2 < lo_j or j2 > hi_j:
                 continue
-            s1, s2 = float(obj.sample(j1 / UD)), float(obj.sample(j2 / UD))
-            if not (abs(s1) < 1e5 and abs(s2) < 1e5):
-                m1 = m2 = 2 ** 29            # NaN / overflow: rejected by every clause
-            else:
-                m1, m2 = int(round(s1 * S)), int(round(s2 * S))
+            try:
+                s1, s2 = float(obj.sample(j1 / UD)), float(obj.sample(j2 / UD))
+            except Exception:
+                s1 = s2 = float('nan')
+            bad = not (abs(s1) < 900 and abs(s2) < 900)      # NaN / infinite / far outside any support used here
+            m1, m2 = (0, 0) if bad else (int(round(s1 * S)), int(round(s2 * S)))
             events.append(dict(id=len(events), kind=kind, a=[a.numerator, a.denominator], b=[b.numerator, b.denominator],
-                               j1=j1, j2=j2, UD=UD, S=S, m1=m1, m2=m2, tol=1,
+                               j1=j1, j2=j2, UD=UD, S=S, m1=m1, m2=m2, tol=1, bad=bad,
                                gtol=int(math.ceil(float(b) * 0.5 / ZS * S)) + 2, got=[s1, s2]))
     return events
 
@@ -258,8 +267,10 @@ def run_traces(ctx, n, zf):
     ctx.add_sample(dict(trace_event=slim[0]))
     # canary
     for kind in ('Uniform', 'Gaussian'):
-        good = [e for e in slim if e['id'] not in badids and e['kind'] == kind]
+        good = [e for e in slim if e['id'] not in badids and e['kind'] == kind and 16 <= e['j1'] <= 240]   # closed bracket
         if not good:
+            if any(e['kind'] == kind for e in slim if e['id'] in badids):
+                continue                    # every candidate was rejected already: the validation is not vacuous
             raise Machinery('no event for the canary')
         c = dict(good[len(good) // 2])
         c['m1'] = c['m1'] + 40 * c['gtol'] + 500
@@ -317,8 +328,8 @@ def replay(ctx, violations):
                 obj = getattr(priors, e['kind'])(bounds=[float(a), float(b)]) if e['kind'] in ('Uniform', 'LogUniform') \
                     else getattr(priors, e['kind'])(mean=float(a), std=float(b))
                 s1, s2 = float(obj.sample(e['j1'] / e['UD'])), float(obj.sample(e['j2'] / e['UD']))
-                ok = abs(s1) < 1e5 and abs(s2) < 1e5
-                e['m1'], e['m2'] = (int(round(s1 * e['S'])), int(round(s2 * e['S']))) if ok else (2 ** 29, 2 ** 29)
+                e['bad'] = not (abs(s1) < 900 and abs(s2) < 900)
+                e['m1'], e['m2'] = (0, 0) if e['bad'] else (int(round(s1 * e['S'])), int(round(s2 * e['S'])))
                 _, bad, _ = validate_trace('Trace_Priors', 'Trace_Priors.cfg', [e], env={'PRIORS_Z_FILE': zf})
                 ctx.verdict('trace_' + (bad[0]['why'] if bad else 'accepted'), not bad, cls='%s:trace' % e['kind'],
                             detail='samples %r %r' % (s1, s2), vector=vec)
